@@ -185,7 +185,9 @@ class SquaredL2Loss(Loss):
         self.W: linop.Diagonal
 
         if W is None:
-            self.W = linop.Identity(y.shape)  # type: ignore
+            self.W = linop.Identity(  # type: ignore
+                y.shape, input_dtype=snp.util.real_dtype(y.dtype)
+            )
         elif isinstance(W, linop.Diagonal):
             if snp.all(W.diagonal >= 0):  # type: ignore
                 self.W = W
@@ -336,7 +338,9 @@ class SquaredL2AbsLoss(Loss):
                 If ``None``, defaults to :class:`.Identity`.
         """
         if W is None:
-            self.W: Union[linop.Diagonal, linop.Identity] = linop.Identity(y.shape)
+            self.W: Union[linop.Diagonal, linop.Identity] = linop.Identity(
+                y.shape, input_dtype=snp.util.real_dtype(y.dtype)
+            )
         elif isinstance(W, linop.Diagonal):
             if snp.all(W.diagonal >= 0):
                 self.W = W
@@ -542,7 +546,9 @@ class SquaredL2SquaredAbsLoss(Loss):
                 If ``None``, defaults to :class:`.Identity`.
         """
         if W is None:
-            self.W: Union[linop.Diagonal, linop.Identity] = linop.Identity(y.shape)
+            self.W: Union[linop.Diagonal, linop.Identity] = linop.Identity(
+                y.shape, input_dtype=snp.util.real_dtype(y.dtype)
+            )
         elif isinstance(W, linop.Diagonal):
             if snp.all(W.diagonal >= 0):
                 self.W = W
